@@ -243,6 +243,20 @@ def stepLine (m : Machine) (line : String) : Machine × Option String :=
         -- dropping the last handle releases every key and value (Rust runs the destructors
         -- when the last `Rc`/`Arc` goes: trusted)
         (.dead, some "drop -> dropped k=0 v=0")
+      else if op.startsWith "iterlag " then
+        -- `iterlag d`: the iterator is created, the clock moves by `d`, then the iterator is
+        -- consumed.  Creating an iterator reads nothing (`Cache::iter` only wraps the map's
+        -- iterator); expiry is judged when an entry is yielded.  So the composite is the clock
+        -- step followed by an iteration, and it prints the iteration's observation.
+        match ((op.drop 8).toString.trimAscii.toString).toNat? with
+        | none => (m, some s!"{op} -> bad-op")
+        | some d =>
+          let (m1, o1) := cacheLine m s!"adv {d}"
+          match m1 with
+          | .dead => (m1, o1.map (fun s => s!"{op} -> {((s.splitOn " -> ").getD 1 "")}"))
+          | _ =>
+            let (m2, o2) := cacheLine m1 "iter"
+            (m2, o2.map (fun s => s!"{op} -> {((s.splitOn " -> ").getD 1 "")}"))
       else cacheLine m op
     | .sketch _ => facadeLine m op
     | .deque _ => facadeLine m op
@@ -318,6 +332,7 @@ def concsLineToTrace (held : List (Nat × Bool)) (opS obS : String) :
     let t ← t.toNat?
     some (held.filter (fun x => x.1 != t), none)
   | ["maint"] => some (held, some (.sync, .ok))
+  | ["noinject"] => some (held, none)     -- harness directive (kind=inject): not an operation
   | _ => do
     let op ← parseOp opS
     let ob ← parseObs obS
@@ -370,6 +385,15 @@ partial def oracleLoop (prop : String) (h : IO.FS.Stream) (out : IO.FS.Stream)
           | some (held', some oo) => oracleLoop prop h out (some { c with trace := oo :: c.trace, held := held' }) n
           | some (held', none) => oracleLoop prop h out (some { c with held := held' }) n
           | none =>
+            let c' := if c.parseError.isSome then c else { c with parseError := some l }
+            oracleLoop prop h out (some c') n
+        else
+        if opS.trimAscii.toString.startsWith "iterlag " then
+          -- composite of a clock step and an iteration (see `stepLine`)
+          match ((opS.trimAscii.toString.drop 8).toString.trimAscii.toString).toNat?, parseObs obS with
+          | some d, some ob =>
+            oracleLoop prop h out (some { c with trace := (.iter, ob) :: (.adv d, .ok) :: c.trace }) n
+          | _, _ =>
             let c' := if c.parseError.isSome then c else { c with parseError := some l }
             oracleLoop prop h out (some c') n
         else
